@@ -21,6 +21,14 @@ CLAIMED = {
   text="Proof (all inputs and, by induction over the representation invariant, all operation histories): dataList.appendData/removeFirst, MemoryEventStore.init/Open/Append/purge (three nested loop invariants)/SetMaxBytes/SessionClosed/After (both closures) and the constructor are verified against contracts stating: payloads are addressed by absolute index, eviction is oldest-first and never moves or alters a retained payload, Append assigns the next index, After returns exactly the retained suffix after the index (private copy) or an ErrEventsPurged-wrapping error (index arithmetic checked in 64-bit wrap-around semantics), bytes after Append exceed the budget by at most the new payload, closing a session removes exactly its streams; per-stream byte accounting size == sum of payload lengths; frames for every function. Found defect F7 (After index wrap-around), reproduced on the real code and repaired by a fix: commit.",
   note="Trusted: sumlen axioms (non-negative, empty, split, point update), slices.Clone and fmt.Errorf/errors.Is contracts, the mk() trigger device, VC generator/go-ssa/solvers. Assumed as API preconditions: fewer than 2^63-1 appends per stream and byte totals below 2^63 (index/size arithmetic in range). Not yet decided: the global accounting equality nBytes == sum of stream sizes (hence unreachability of purge's 'no progress' panic), lock discipline of s.mu (safe under concurrent use) and the iterator's yield of a snapshot that the consumer cannot alter.",
   ref="DESIGN.md 10/C20"),
+ "C17": dict(
+  text="Proof (all inputs/histories of the feature set): featureSet.add/remove/sortKeys/above/yieldFrom verified against the representation invariant (the lazily built index is absent or the strictly ascending list of exactly the registered ids), membership/frame postconditions, 'above(uid) starts at the first id strictly greater than uid' (BinarySearch contract), in-order yield with stop; paginateList thin contract: undecodable cursor => invalid-params and nothing iterated, otherwise resumes with above(cursor's id), first page uses all().",
+  note="Trusted: uniqueID functions are pure (uidOf), slices.Sorted(maps.Keys(m)) and slices.BinarySearch contracts over an uninterpreted strict total order, cursor codec (gob/base64) frames, cursorPtr accessors. Not decided here (argued in DESIGN.md from these contracts): page contents produced by the range-over-func loop of paginateList (count/break logic, next cursor = id of last item), the keyset disjoint/covering lemmas across pages, the client-side iterators, and that no cursor bytes can crash the gob decoder.",
+  ref="DESIGN.md 10/C17"),
+ "C13": dict(
+  text="Proof (all ping-outcome sequences, by loop invariant): the keep-alive goroutine's counter equals the number of consecutive failed pings (ghost variable defined from ping results), Close is called at most once and exactly when that number reaches the threshold, a method-not-found answer ends keep-alive without closing and is never followed by another ping, every exit either passed through the select again or closed/ended for method-not-found (a failed ping is never dropped), the ticker is stopped on every exit, period = interval, ping context timeout = interval/2; the parent normalises the threshold to >= 1 before starting the goroutine.",
+  note="Trusted: errors.Is model, select/receive modelled as nondeterministic choice, session.Ping/Close havocked (any behaviour). Not decided: wall-clock bound (derived on paper from period and timeout), goroutine scheduling, dropped ticks; that Server/Client.Connect start keep-alive and Close cancels it.",
+  ref="DESIGN.md 10/C13"),
 }
 
 NOT_YET = "contracts not completed yet (build in progress; see DESIGN.md section 12)"
